@@ -366,6 +366,16 @@ TARGETS = [
                   try_calls={"PropType::try_from": "propTypeTryFrom {0}", "ByteSize::try_from": "byteSizeTryFrom {0}"},
                   unwrap_options=True, funcs={"SmallString::default": "[]"},
                   struct_as={"DeportedInfo": ["id_size", "value_store_idx"], "Self": ["size", "kind", "name"]})),
+    # ---- reader: ContentPack::get_content (order of the checks and lookups; the lookups are parameters)
+    dict(name="contentPackGetContent", group="Parse", file="src/reader/content_pack/mod.rs", fn="get_content",
+         cfg=dict(params=[("contentCount", N), ("clusterCount", N), ("infoAt", "Nat → Outcome (Nat × Nat)"),
+                          ("getCluster", "Nat → Outcome C"), ("getBytes", "C → Nat → Outcome Bytes"), ("index", N)],
+                  ret="Option Bytes", outcome=True, stateful=False, implicit="{C : Type}",
+                  exprs={"self.header.content_count": "contentCount", "self.header.cluster_count": "clusterCount"},
+                  methods={"is_valid": "(Generated.idxIsValid {recv} {0})", ".cluster_index": "({recv}).1", ".blob_index": "({recv}).2"},
+                  try_exprs={"self.content_infos.index(*index)": "infoAt index",
+                             "self.get_cluster(content_info.cluster_index)": "getCluster (content_info).1",
+                             "cluster.get_bytes(content_info.blob_index)": "getBytes cluster (content_info).2"})),
 ]
 
 
@@ -563,7 +573,7 @@ def apply_enums(t):
     return "\n".join(decls)
 
 
-GROUP_IMPORTS = {"Parse": ["JubakoModel.Model.DirLayout"], "Entry": ["JubakoModel.Generated.FuncsBytes", "JubakoModel.Generated.FuncsDir"], "Stats": ["JubakoModel.Generated.FuncsBytes", "JubakoModel.Generated.FuncsDir"], "Lookup": [], "Fs": ["JubakoModel.Model.BasicCreatorFs"], "Sync": ["JubakoModel.Model.SyncVec"], "Pipe": ["JubakoModel.Model.Pipeline"], "Proto": ["JubakoModel.Model.FileCursor"], "Search": ["JubakoModel.Generated.FuncsBytes"], "Content": ["JubakoModel.Generated.FuncsBytes"], "Dir": ["JubakoModel.Generated.FuncsBytes", "JubakoModel.Model.Bytes"]}
+GROUP_IMPORTS = {"Parse": ["JubakoModel.Model.DirLayout", "JubakoModel.Generated.FuncsBytes"], "Entry": ["JubakoModel.Generated.FuncsBytes", "JubakoModel.Generated.FuncsDir"], "Stats": ["JubakoModel.Generated.FuncsBytes", "JubakoModel.Generated.FuncsDir"], "Lookup": [], "Fs": ["JubakoModel.Model.BasicCreatorFs"], "Sync": ["JubakoModel.Model.SyncVec"], "Pipe": ["JubakoModel.Model.Pipeline"], "Proto": ["JubakoModel.Model.FileCursor"], "Search": ["JubakoModel.Generated.FuncsBytes"], "Content": ["JubakoModel.Generated.FuncsBytes"], "Dir": ["JubakoModel.Generated.FuncsBytes", "JubakoModel.Model.Bytes"]}
 GROUP_PREAMBLE = {"Parse": """/- semantics of the effects of the parsing code (trusted, DESIGN.md §12.7): `unwrap()` of an `Err` / `None` is a
    panic; `read_isized(n)` reads `n` bytes little-endian and sign-extends (`LE::read_int`) -/
 def unwrapped {α : Type} : Outcome α → Outcome α
